@@ -326,7 +326,11 @@ func c11World(rc *kernel.RunCtx) {
 			})
 			k.Quiesce()
 			hB.ServeHTTP(recB, httptest.NewRequest(http.MethodGet, "/b", nil))
-			if p := k.Find("reqA"); p != nil {
+			for i := 0; i < 100000; i++ { // A may send its document in any number of writes
+				p := k.Find("reqA")
+				if p == nil {
+					break
+				}
 				k.Run(p, kernel.Decision{})
 			}
 			k.Quiesce()
